@@ -37,12 +37,17 @@ Theorem C01_set_entries_wf : forall m k v m', forallb wf_tag_entry m = true ->
 Proof. exact tags_set_entries_wf. Qed.
 Print Assumptions C01_set_entries_wf.
 
-(* Get after Set on a (non-nil) map: the value given, other keys untouched. *)
-Theorem C01_tags_get_set : forall (m : tagmap) k v t',
-  tags_set (Some m) k v = Some t' ->
-  tags_get t' k = Some v /\ (forall k', k' <> k -> tags_get t' k' = tags_get (Some m) k').
+(* Get after Set, for every receiver: the value given, other keys untouched (Set on a nil
+   Tags is refused: C01_tags_set_nil_error). *)
+Theorem C01_tags_get_set : forall (t : wtags) k v t',
+  tags_set t k v = Some t' ->
+  tags_get t' k = Some v /\ (forall k', k' <> k -> tags_get t' k' = tags_get t k').
 Proof. exact tags_get_set. Qed.
 Print Assumptions C01_tags_get_set.
+
+Theorem C01_tags_set_nil_error : forall k v, tags_set None k v = None.
+Proof. exact tags_set_nil_error. Qed.
+Print Assumptions C01_tags_set_nil_error.
 
 (* The tag escaping table is lossless on every byte string. *)
 Theorem C01_tag_unescape_escape : forall v, tag_unescape (tag_escape v) = v.
@@ -53,13 +58,6 @@ Print Assumptions C01_tag_unescape_escape.
 Theorem C01_source_roundtrip : forall s, wf_wsource s = true -> wparse_source (source_write s) = Ok s.
 Proof. exact source_roundtrip. Qed.
 Print Assumptions C01_source_roundtrip.
-
-(* Finding tags-set-nil: on a nil Tags the Go method reports success and loses the value
-   (the model mirrors it); stated so that the discrepancy with C01_tags_get_set is visible. *)
-Theorem C01_tags_set_nil_refuted :
-  exists k v t', tags_set None k v = Some t' /\ tags_get t' k = None.
-Proof. exact tags_set_nil_loses_value. Qed.
-Print Assumptions C01_tags_set_nil_refuted.
 
 (* Conversely: for every line of the C02 grammar (valid UTF-8, de-duplicated tag
    section within the limit), parsing it, serialising the result and parsing again yields
